@@ -114,6 +114,36 @@ func TestC19Driver(t *testing.T) {
 // be called "*" itself).
 const starItem = "\x00*"
 
+// bareName: the name can stand in SQL text without quotes - a letter, an
+// underscore or any byte above 0x7f first, then those and digits - and is no
+// word of SQL (only a few plain names are let through unquoted).
+func bareName(c string) bool {
+	if c == "" {
+		return false
+	}
+	ascii := true
+	for i := 0; i < len(c); i++ {
+		b := c[i]
+		switch {
+		case b >= 0x80:
+			ascii = false
+		case b == '_' || b >= 'a' && b <= 'z' || b >= 'A' && b <= 'Z':
+		case b >= '0' && b <= '9' && i > 0:
+		default:
+			return false
+		}
+	}
+	if ascii {
+		// (ASCII words may be keywords of SQLite or of the driver's grammar)
+		switch c {
+		case "a", "b", "c", "d", "e", "f", "g", "x1", "y_2", "data", "Ab":
+			return true
+		}
+		return false
+	}
+	return true
+}
+
 func producerGoroutines() int {
 	buf := make([]byte, 1<<20)
 	n := runtime.Stack(buf, true)
@@ -157,9 +187,15 @@ func run(r *vt.Run, t vt.TB, s spec) {
 	if s.DB.Tables[0].Def.WithoutRowid {
 		pool = allCols
 	}
+	nq := 0
 	quote := func(c string) string {
 		switch fold.Lower(c) {
 		case "rowid", "oid":
+			return c
+		}
+		nq++
+		if (s.Corrupt+nq)%3 == 0 && bareName(c) {
+			// written without quotes where SQLite takes the name as it is
 			return c
 		}
 		return `"` + strings.ReplaceAll(c, `"`, `""`) + `"`
